@@ -372,6 +372,10 @@ func C12(r *ev.Report) {
 		pairVals = alpha.Thin(alpha.Values(ref.P, 2), 9000)
 	}
 
+	if c12Light && !ev.Thorough() {
+		pairVals = alpha.Thin(vals, 320) // seam under another property: a lighter pair product, same unary sweeps
+	}
+
 	r.Rule("internal/field called directly from the in-module harness: Add/Subtract/Multiply/CMove(0|1)/Equals on all ordered pairs of V_p (canonical- and Montgomery-structured limb products closed under negation and +-1) in the aliasing shapes distinct, e=u, e=v (every pair) and u=v, e=u=v (diagonal); Negate/Square/Set/Invert (aliased and not), IsZero/Sgn0/Bytes on all of V_p; SqrtRatio on V_p x a 48-value slice; FromBytesWithReduce on limb-product strings and the window around p; HashToFieldElement on the 6-limb product of 48-byte strings and around multiples of p; non-trivial = both operands >= 2^64")
 	r.Bound("values", len(vals))
 	r.Bound("pair_values", len(pairVals))
@@ -533,7 +537,25 @@ func valOfP(v *big.Int) alpha.Val {
 	return alpha.Val{V: v, Raw: ref.Mont(v, ref.P)}
 }
 
+// c12Light selects the lighter pair product used when the field layer is checked as a seam under a group-level
+// property (one part per process, so a package variable is safe).
+var c12Light bool
+
+func c12Seam(r *ev.Report) {
+	c12Light = true
+	C12(r)
+}
+
 func init() {
+	for _, pid := range []string{"C01", "C02", "C03", "C04", "C05"} {
+		Parts[pid+"field"] = Part{pid, c12Seam}
+	}
+
+	// The hashing and map-to-curve properties rest on exact field arithmetic; their own (msg, DST) / u alphabets
+	// reach a defective operand class of Mul or Square only by brute force over SHA-256, so the field layer - which
+	// their anchors include - is checked as a seam under those properties as well.
+	Parts["C08field"] = Part{"C08", C12}
+	Parts["C11field"] = Part{"C11", C12}
 	Parts["C12"] = Part{"C12", C12}
 	Replayers["C12"] = func(c Case) (bool, string) {
 		var key, detail string
